@@ -239,6 +239,18 @@ void usim_thread_name(const char *fmt, ...)
 	va_end(ap);
 }
 
+void usim_set_op(const char *fmt, ...)
+{
+	va_list ap;
+	if (!cur)
+		return;
+	va_start(ap, fmt);
+	vsnprintf(cur->opdesc, sizeof(cur->opdesc), fmt, ap);
+	va_end(ap);
+	if (G.trace)
+		fprintf(stderr, "[%6lu T%d] op %s\n", (unsigned long) G.seq, cur->id, cur->opdesc);
+}
+
 int usim_tid(void) { return cur ? cur->id : -1; }
 int usim_nthreads(void) { return G.nthr; }
 uint64_t usim_now(void) { return G.now; }
@@ -494,8 +506,8 @@ static void deadlock(void)
 		struct sthr *t = &G.thr[i];
 		if (t->state == T_EXITED)
 			continue;
-		n += snprintf(msg + n, sizeof(msg) - n, " T%d(%s)=%s", t->id,
-			t->name[0] ? t->name : "-", state_name(t->state));
+		n += snprintf(msg + n, sizeof(msg) - n, " T%d(%s)=%s in '%s'", t->id,
+			t->name[0] ? t->name : "-", state_name(t->state), t->opdesc);
 	}
 	rt_finish(RS_VIOLATION, "deadlock", msg);
 }
@@ -541,15 +553,31 @@ static void step_common(int kind)
 		G.quiet_used_steps = G.steps - G.quiet_start_step;
 		if (G.quiet_used_steps > G.quiet_steps ||
 		    G.now - G.quiet_start_now > G.quiet_ns) {
-			char msg[256];
-			snprintf(msg, sizeof(msg),
-				"no completion %lu steps / %lu simulated ns after the last operation was issued and faults stopped",
+			char msg[1024];
+			int i, n;
+			n = snprintf(msg, sizeof(msg),
+				"no completion %lu steps / %lu simulated ns after faults stopped and scheduling became fair (%s); still pending:",
 				(unsigned long) G.quiet_used_steps,
-				(unsigned long) (G.now - G.quiet_start_now));
+				(unsigned long) (G.now - G.quiet_start_now),
+				G.quiet_forced ? "phase forced because the run exceeded half of the step cap" : "every script had issued its last operation");
+			for (i = 0; i < G.nthr && n < (int) sizeof(msg) - 100; i++) {
+				struct sthr *t = &G.thr[i];
+				if (t->state == T_EXITED || (!t->opdesc[0] && !t->name[0]))
+					continue;
+				n += snprintf(msg + n, sizeof(msg) - n, " T%d(%s)=%s in '%s'", t->id,
+					t->name[0] ? t->name : "-", state_name(t->state), t->opdesc);
+			}
 			rt_finish(RS_VIOLATION, "liveness", msg);
 		}
-	} else if (G.steps > G.step_cap || G.now > G.time_cap) {
-		rt_finish(RS_INCONCLUSIVE, "stepcap", "step or time cap reached in the chaotic phase");
+	} else if (G.steps > G.step_cap / 2 || G.now > G.time_cap) {
+		/*
+		 * Far beyond any run observed on a correct tree: stop injecting
+		 * faults and schedule fairly. If the run still does not finish
+		 * within the quiet-phase budget, something waits forever.
+		 */
+		usim_probe("quiet.forced_by_step_cap");
+		G.quiet_forced = 1;
+		quiet_enter();
 	}
 	wake_sleepers();
 }
@@ -964,6 +992,12 @@ void usim_solo_end(void)
 	G.solo_tid = -1;
 }
 
+void usim_allow_create_fail(int on)
+{
+	if (cur)
+		cur->allow_create_fail = on;
+}
+
 void usim_yield(void)
 {
 	if (cur && G.active)
@@ -1325,7 +1359,7 @@ struct sthr *rt_new_thread(void)
 {
 	struct sthr *t;
 	if (G.nthr >= MAXT)
-		usim_bug("too many simulated threads");
+		rt_finish(RS_INCONCLUSIVE, "too-many-threads", "more simulated threads than the engine supports");
 	t = &G.thr[G.nthr];
 	memset(t, 0, sizeof(*t));
 	t->id = G.nthr++;
@@ -1403,7 +1437,7 @@ int usim_pthread_create(pthread_t *thread, const pthread_attr_t *attr,
 	}
 	rt_sb_drain_all(me);
 	rt_sched_point(Y_SYS);
-	if (usim_fault("pthread_create_eagain", 1, 3))
+	if (me->allow_create_fail && usim_fault("pthread_create_eagain", 1, 3))
 		return EAGAIN;
 	t = rt_new_thread();
 	t->fn = fn;
